@@ -79,6 +79,69 @@ VH_EXPORT int vp_h18b_shared(const unsigned char* in, unsigned char* out) {
 	if (a.loaded) return r && p && *p == a.value;
 	return !r && !p;
 }
+// ---- h18c: map load modes (generic_map.h SerializeMapImpl) with a bounded map-like container and a harness object scope
+#include "bitserializer/serialization_detail/generic_map.h"
+struct BMap {             // capacity 6, int64 -> int, insertion order; the members SerializeMapImpl uses
+	typedef int64_t key_type; typedef int mapped_type;
+	struct Ent { int64_t first; int second; };
+	typedef Ent* iterator;
+	Ent e[6]; size_t n = 0; bool overflow = false;
+	iterator begin() { return e; } iterator end() { return e + n; }
+	void clear() { n = 0; }
+	iterator find(int64_t k) { for (size_t i = 0; i < 6; i++) if (i < n && e[i].first == k) return e + i; return end(); }
+	iterator try_emplace(iterator, int64_t k) { iterator it = find(k); if (it != end()) return it; if (n >= 6) { overflow = true; return e + 5; } e[n].first = k; e[n].second = 0; return e + n++; }
+	int& operator[](int64_t k) { return try_emplace(end(), k)->second; }
+};
+struct MockObj {
+	using supported_key_types = TSupportedKeyTypes<std::string, int64_t>;
+	using key_type = std::string;
+	static constexpr bool IsLoading() { return true; }
+	static constexpr bool IsSaving() { return false; }
+	SerializationOptions opt;
+	size_t k; const int64_t* keys; const int* vals; const bool* loaded;
+	const SerializationOptions& GetOptions() const { return opt; }
+	size_t GetEstimatedSize() const { return k; }
+	template <class F> void VisitKeys(F&& fn) { for (size_t i = 0; i < 3; i++) if (i < k) { cur = i; fn(keys[i]); } }
+	size_t cur = 0;
+};
+static bool Serialize(MockObj& o, const int64_t&, int& v) { if (o.loaded[o.cur]) v = o.vals[o.cur]; return o.loaded[o.cur]; }
+template <int MODE> static inline int prop_map(const unsigned char* in, unsigned char* out) {
+	// prior content: P entries with keys from a small universe 0..3 (distinct), document: K entries with distinct keys 0..3
+	size_t P = in[0] % 3, K = in[1] % 3;
+	BMap m; int64_t pk[2] = { in[2] % 4, in[3] % 4 }; if (P == 2 && pk[0] == pk[1]) return 1;
+	for (size_t i = 0; i < 2; i++) if (i < P) { m.e[m.n].first = pk[i]; m.e[m.n].second = 500 + (int)i; m.n++; }
+	int64_t dk[3] = { in[4] % 4, in[5] % 4, 0 }; if (K == 2 && dk[0] == dk[1]) return 1;
+	int dv[3] = { 100 + in[6], 100 + in[7], 0 }; bool ld[3] = { (in[8] & 1) != 0, (in[8] & 2) != 0, false };
+	MockObj o{ SerializationOptions(), K, dk, dv, ld };
+	verif_symbolic_phase();
+	Detail::SerializeMapImpl(o, m, MODE == 0 ? MapLoadMode::Clean : MODE == 1 ? MapLoadMode::OnlyExistKeys : MapLoadMode::UpdateKeys);
+	out[0] = (unsigned char)m.n;
+	if (m.overflow) return 0;
+	// reference, key by key over the universe 0..3
+	for (int64_t key = 0; key < 4; key++) {
+		int prior_i = -1, doc_i = -1;
+		for (size_t i = 0; i < 2; i++) { if (i < P && pk[i] == key) prior_i = (int)i; if (i < K && dk[i] == key) doc_i = (int)i; }
+		BMap::iterator it = m.find(key); bool present = it != m.end();
+		if (MODE == 0) {              // Clean == loading into a fresh map: exactly the document keys
+			if (present != (doc_i >= 0)) return 0;
+			if (present && ld[doc_i] && it->second != dv[doc_i]) return 0;
+		} else if (MODE == 1) {       // OnlyExistKeys never adds a key (and keeps the others)
+			if (present != (prior_i >= 0)) return 0;
+			if (present) { int want = (doc_i >= 0 && ld[doc_i]) ? dv[doc_i] : 500 + prior_i; if (it->second != want) return 0; }
+		} else {                      // UpdateKeys never removes a key
+			if (present != (prior_i >= 0 || doc_i >= 0)) return 0;
+			if (present && doc_i >= 0 && ld[doc_i] && it->second != dv[doc_i]) return 0;
+			if (present && prior_i >= 0 && !(doc_i >= 0 && ld[doc_i]) && it->second != 500 + prior_i) return 0;
+		}
+	}
+	return 1;
+}
+VH_EXPORT int vp_h18c_clean(const unsigned char* in, unsigned char* out) { return prop_map<0>(in, out); }
+VH_EXPORT int vp_h18c_onlyexist(const unsigned char* in, unsigned char* out) { return prop_map<1>(in, out); }
+VH_EXPORT int vp_h18c_update(const unsigned char* in, unsigned char* out) { return prop_map<2>(in, out); }
+//@ OBL {"name":"h18c_clean","family":"h18c","prop":"vp_h18c_clean","in":12,"out":8,"unwind":8,"fs":32,"bounds":"prior map of 0..2 entries, document of 0..2 entries over keys 0..3, each value loadable or not","desc":"SerializeMapImpl, Clean: result has exactly the document keys (== fresh load), stale entries gone"}
+//@ OBL {"name":"h18c_onlyexist","family":"h18c","prop":"vp_h18c_onlyexist","in":12,"out":8,"unwind":8,"fs":32,"bounds":"prior map of 0..2 entries, document of 0..2 entries over keys 0..3","desc":"SerializeMapImpl, OnlyExistKeys: never adds a key; existing keys updated when loadable, kept otherwise"}
+//@ OBL {"name":"h18c_update","family":"h18c","prop":"vp_h18c_update","in":12,"out":8,"unwind":8,"fs":32,"bounds":"prior map of 0..2 entries, document of 0..2 entries over keys 0..3","desc":"SerializeMapImpl, UpdateKeys: never removes a key; document keys added/updated"}
 //@ OBL {"name":"h18a_container","prop":"vp_h18a_container","in":12,"out":8,"unwind":10,"fs":32,"cap_s":900,"bounds":"prior size P, estimated size E and available items K each in 0..4 (all 125 combinations), symbolic item and stale values","desc":"SerializeContainer: final content == the K loaded items for every prior state and every (possibly wrong) size estimate"}
 //@ OBL {"name":"h18b_optional","prop":"vp_h18b_optional","in":12,"out":8,"unwind":4,"fs":32,"bounds":"prior empty/engaged(stale), loaded flag, with and without key, every value","desc":"std::optional loader: engaged with the loaded value, or reset - never the stale value"}
 //@ OBL {"name":"h18b_unique","prop":"vp_h18b_unique","in":12,"out":8,"unwind":4,"fs":32,"cbmc":["--memory-leak-check"],"bounds":"prior null/non-null(stale), loaded flag, with and without key","desc":"std::unique_ptr loader: points to the loaded value, or reset; no leak"}
